@@ -33,6 +33,21 @@ pub struct SwarmsCase {
     pub seed: u64,
     /// which swarm's population is created first (lies lower on the stack)
     pub a_first: bool,
+    /// size of a scouting phase before the swarms exist (0 = none): random points are evaluated
+    /// and recorded as the run's best individual, then discarded - the swarms' memories are about
+    /// the swarms' own particles all the same
+    #[serde(default)]
+    pub scout: u32,
+}
+
+/// Discards the current population (the scouts).
+#[derive(Clone, Serialize)]
+struct DropPopulation;
+impl Component<RealP> for DropPopulation {
+    fn execute(&self, _problem: &RealP, state: &mut State<RealP>) -> ExecResult<()> {
+        let _ = state.populations_mut().try_pop();
+        Ok(())
+    }
 }
 
 pub struct TwoSwarms;
@@ -163,6 +178,7 @@ impl World for TwoSwarms {
             iterations: g.below(tier.pick(12, 40)) as u32,
             seed: g.u64(),
             a_first: g.chance(0.5),
+            scout: if g.chance(0.3) { 10 + g.below(50) as u32 } else { 0 },
             problem,
         }
     }
@@ -179,7 +195,9 @@ impl World for TwoSwarms {
             let step_a = swarm_step::<A>("A", c, &ha, &found)?;
             // the population created last is on top: it moves first
             let (first_init, second_init, top_step, low_step) = if c.a_first { (init_a, init_d, step_d, step_a) } else { (init_d, init_a, step_a, step_d) };
-            Ok(Configuration::builder()
+            let b = Configuration::builder();
+            let b = if c.scout > 0 { b.do_(initialization::RandomSpread::new(c.scout)).evaluate().update_best_individual().do_(Box::new(DropPopulation)) } else { b };
+            Ok(b
                 .do_many_(first_init)
                 .do_many_(second_init)
                 .while_(LessThanN::iterations(c.iterations), move |b| b.do_many_(top_step).do_(RotatePopulations::new(1)).do_many_(low_step).do_(RotatePopulations::new(1)))
@@ -209,6 +227,9 @@ impl World for TwoSwarms {
             out.fingerprints.push(fp.0);
         }
         bump(&mut out.counters, "probe:two swarms with their own memories in one state", 1);
+        if c.scout > 0 {
+            bump(&mut out.counters, "probe:scouting phase recorded a best individual before the swarms existed", 1);
+        }
         if c.sizes.0 != c.sizes.1 {
             bump(&mut out.counters, "probe:swarms of different sizes", 1);
         }
@@ -233,6 +254,9 @@ impl World for TwoSwarms {
         }
         if c.sizes.1 > 1 {
             v.push(SwarmsCase { sizes: (c.sizes.0, c.sizes.1 - 1), ..c.clone() });
+        }
+        if c.scout > 0 {
+            v.push(SwarmsCase { scout: 0, ..c.clone() });
         }
         if c.problem.dim > 1 {
             let mut p = c.problem.clone();
